@@ -60,6 +60,10 @@ CHECKS = {
          "Exploration: 600 generated UFOs (marks with several attaching anchors, bases, ligatures with numbered anchors and gaps, mark-to-mark anchors, fractional coordinates, Indic code points for abvm/blwm, roles by anchors / categories / user GDEF, groupMarkClasses, quantisation); every glyph pair (and every ligature component) is evaluated under every script tag with mark, mkmk, abvm, blwm active together; the final attachment must be one of the source-defined candidates, or absent when there is none.",
          "Trusts fontTools' GPOS/GDEF readers; shaper semantics of DESIGN section 3; only the mark (and GDEF) writer runs.",
          "DESIGN.md section 5 C06, section 6"),
+ "C13": ("runtime monitoring: relation between executions (with / without the skip list) over reloaded outlines, order, cmap, metrics and GPOS results evaluated by the interpreter",
+         "Exploration: 500 component-graph UFOs with kerning groups, mark anchors and categories x random skip subsets (nested chains, mirrored references, group members) delivered by argument / UFO lib / both / designspace lib, OTF and TTF, static plus interpolatable and variable strata; each compiled twice by the real compile functions; skipped names must be absent everywhere, the remaining glyphs' contour multisets (OTF exact, TTF within the stored-form error bound), advances, order, cmap, kerning and mark attachment must be unchanged.",
+         "Trusts fontTools' readers; TTF cases restricted to line/quadratic sources; feature text without GSUB rules.",
+         "DESIGN.md section 5 C13"),
 }
 
 NOT_APPLICABLE = [
